@@ -509,12 +509,21 @@ func checkKeywords(p *Prog, l *Ledger, g *Graph) {
 	idTok, _ := p.tokenConst("IDENTIFIER")
 	okLookup, okFallback := false, false
 	badTok := ""
+	nWord, munchBad, munchPos := 0, "", ""
 	for _, es := range g.Out {
 		for _, e := range es {
 			if e.Ev == nil || e.Ev.Op != "token" {
 				continue
 			}
 			a := e.Ev.Args[0]
+			if strings.HasPrefix(a, "global:lexer.keywords[") || a == fmt.Sprint(idTok) {
+				// the longest piece: a word ends only where the next rune cannot continue it
+				nWord++
+				if e.Ev.KV["at-end"] != "T" && e.Ev.KV["after-may"] != "" {
+					munchBad = fmt.Sprintf("a word token (%s) is produced although the rune after it may still be one of %s: the word is cut short (a keyword followed by a digit or letter must be one identifier)", a, e.Ev.KV["after-may"])
+					munchPos = e.Ev.Pos
+				}
+			}
 			if strings.HasPrefix(a, "global:lexer.keywords[") {
 				if a == "global:lexer.keywords[conv:string(s.source[s.start:s.current])]" {
 					okLookup = true
@@ -526,6 +535,14 @@ func checkKeywords(p *Prog, l *Ledger, g *Graph) {
 				okFallback = true
 			}
 		}
+	}
+	switch {
+	case munchBad != "":
+		l.Violate(rule, "identifier#longest", munchPos, munchBad)
+	case nWord == 0:
+		l.Violate(rule, "identifier#longest", "", "no word token found")
+	default:
+		l.Discharge(rule, "identifier#longest", "", fmt.Sprintf("at each of the %d places a word token is produced, the input has ended or the next rune is known to be neither letter, mark, underscore nor digit", nWord), true)
 	}
 	switch {
 	case badTok != "":
@@ -689,64 +706,82 @@ func checkScanTokensLoop(p *Prog, l *Ledger) {
 	m.MainMode = true
 	m.Explore(fn, []AV{Sym("s")}, nil)
 	eofTok, _ := p.tokenConst("EOF")
-	mon := Monitor{Init: "loop", Step: func(s string, ev *Event) string {
+	// three independent facts are tracked along every path: is start == current (set by `start = current`, destroyed by
+	// scanning a token); what did the last end-of-input test say; how many EOF tokens exist.  The loop may be written
+	// `for !isAtEnd() { start = current; scanToken() }` or `for { start = current; if isAtEnd() { break }; scanToken() }`.
+	mon := Monitor{Init: "F|?|0", Step: func(s string, ev *Event) string {
+		f := strings.Split(s, "|") // marked | last test (? more atend pending) | EOF tokens
 		switch ev.Op {
 		case "call":
 			switch {
 			case strings.HasSuffix(ev.Args[0], ".isAtEnd"):
-				return "tested"
+				f[1] = "pending"
 			case strings.HasSuffix(ev.Args[0], ".scanToken"):
-				if s != "marked" {
-					return "!scanToken is called without `start = current` having been executed in this iteration"
+				if f[0] != "T" {
+					return "!scanToken is called without `start = current` having been executed since the last token"
 				}
-				return "scanned"
+				if f[1] != "more" {
+					return "!scanToken is called without the input having been found non-empty in this iteration"
+				}
+				f[0], f[1] = "F", "?"
 			case strings.HasSuffix(ev.Args[0], "NewToken"):
-				if s != "atend" {
+				if f[1] != "atend" {
 					return "!the end-of-input token is created before the input is exhausted"
 				}
 				if ev.Args[1] != fmt.Sprint(eofTok) || ev.Args[2] != `""` || ev.Args[4] != "s.line" {
 					return "!the closing token is " + strings.Join(ev.Args[1:], ",") + " instead of EOF with empty lexeme and the current line"
 				}
-				return "eof"
-			}
-			return "!unexpected call " + ev.Args[0] + " in ScanTokens"
-		case "test":
-			if s == "tested" {
-				if ev.Out == "true" {
-					return "atend"
+				f[2] = f[2] + "+"
+			case strings.HasSuffix(ev.Args[0], ".addToken") || strings.HasSuffix(ev.Args[0], ".AddToken"):
+				// the scanner's own token constructor: lexeme source[start:current] (empty iff start == current), line s.line
+				if f[1] != "atend" {
+					return "!the end-of-input token is created before the input is exhausted"
 				}
-				return "more"
+				if len(ev.Args) < 3 || ev.Args[2] != fmt.Sprint(eofTok) {
+					return "!the closing token is not EOF: " + strings.Join(ev.Args[1:], ",")
+				}
+				if f[0] != "T" {
+					return "!the EOF token is added while start != current: its lexeme is not empty"
+				}
+				f[2] = f[2] + "+A"
+			default:
+				return "!unexpected call " + ev.Args[0] + " in ScanTokens"
+			}
+		case "test":
+			if f[1] == "pending" {
+				if ev.Out == "true" {
+					f[1] = "atend"
+				} else {
+					f[1] = "more"
+				}
 			}
 		case "fieldstore":
 			if ev.Args[0] == "s.start" {
-				if s != "more" || ev.Args[1] != "s.current" {
-					return "!start is set to " + ev.Args[1] + " outside the loop head"
+				if ev.Args[1] != "s.current" {
+					return "!start is set to " + ev.Args[1] + ", not to the cursor"
 				}
-				return "marked"
+				f[0] = "T"
 			}
 			if ev.Args[0] == "s.tokens" {
-				if s != "eof" {
-					return "!tokens is reassigned before the EOF token exists"
+				if f[2] != "0+" {
+					return "!tokens is reassigned in ScanTokens before exactly one EOF token exists"
 				}
-				return "appended"
+				f[2] = "0+A"
 			}
-		case "append":
-			return s
 		case "backedge":
-			if s != "scanned" {
+			if f[0] == "T" && f[1] != "?" {
 				return "!loop iteration without scanning a token"
 			}
-			return "loop"
 		case "return":
-			if s != "appended" {
+			if f[2] != "0+A" {
 				return "!ScanTokens returns without having appended exactly one EOF token after the loop"
 			}
-			if ev.KV["r0"] != "append:ScanTokens:t"+strings.TrimPrefix(ev.KV["r0"], "append:ScanTokens:t") && !strings.HasPrefix(ev.KV["r0"], "append:") && ev.KV["r0"] != "s.tokens" {
+			if !strings.HasPrefix(ev.KV["r0"], "append:") && ev.KV["r0"] != "s.tokens" {
 				return "!ScanTokens returns " + ev.KV["r0"] + " instead of the token list"
 			}
 			return ""
 		}
-		return s
+		return strings.Join(f, "|")
 	}}
 	runMon(l, rule, "ScanTokens", m, mon, "loop: !isAtEnd → start=current → scanToken; then exactly one EOF token (empty lexeme, current line) appended; single return")
 }
